@@ -565,14 +565,37 @@ func (tk *verifTok) diffClass(text, dec string) string {
 	if strings.ReplaceAll(text, "▁", " ") == dec {
 		return "diff=sep-to-space"
 	}
-	x := verifByteLit.ReplaceAllStringFunc(strings.ReplaceAll(text, "▁", " "), func(m string) string {
-		b, _ := strconv.ParseUint(m[3:5], 16, 8)
-		return string([]byte{byte(b)})
-	})
-	if x == dec {
+	if verifByteLitAlign(strings.ReplaceAll(text, "▁", " "), dec) {
 		return "diff=byte-literal"
 	}
 	return "diff=other"
+}
+
+// verifByteLitAlign: dec is text with at least one occurrence of a byte-token literal `<0xNN>` replaced by
+// the byte NN and nothing else changed (only a fragment that IS such a literal is affected, so some
+// occurrences may be kept).
+func verifByteLitAlign(text, dec string) bool {
+	i, j, n := 0, 0, 0
+	for i < len(text) {
+		if loc := verifByteLit.FindStringIndex(text[i:]); loc != nil && loc[0] == 0 {
+			lit := text[i : i+6]
+			if strings.HasPrefix(dec[j:], lit) {
+				i, j = i+6, j+6
+				continue
+			}
+			b, _ := strconv.ParseUint(lit[3:5], 16, 8)
+			if j < len(dec) && dec[j] == byte(b) {
+				i, j, n = i+6, j+1, n+1
+				continue
+			}
+			return false
+		}
+		if j >= len(dec) || dec[j] != text[i] {
+			return false
+		}
+		i, j = i+1, j+1
+	}
+	return j == len(dec) && n > 0
 }
 
 func (tk *verifTok) runCase(enc [256]int, segs []verifSeg, add bool, out *zzverif.Out) {
